@@ -176,6 +176,7 @@ func finish(x *Ctx) {
 	res.Tape = s.Tape
 	if s.Panic != nil {
 		fns := panicSites(s.Panic.Stack)
+		dumpf("PANIC STACK:\n%s", s.Panic.Stack)
 		if strings.HasPrefix(fns[0], "harness:") {
 			x.Trouble("harness panic in goroutine %s: %s @ %s\n%s", s.Panic.G, s.Panic.Value, fns[0], s.Panic.Stack)
 		}
